@@ -153,7 +153,7 @@ theorem lawfulAt_all : ∀ t : LTy, atomizable t = true → LawfulAt (lat t) (se
   | .withTop v, h => by
     have := lawfulAt_all v (by simpa [atomizable] using h)
     exact ⟨lawfulAt_withTop this.2 this.1, lawfulA_withTop this.2⟩
-  | .maxN _, h | .minN _, h | .maxB, h | .minB, h | .conflict, h | .vec _, h
+  | .maxN _, h | .minN _, h | .maxI _, h | .minI _, h | .maxB, h | .minB, h | .conflict, h | .vec _, h
   | .pair _ _, h | .domPair _ _, h | .tri _ _ _, h => by simp [atomizable] at h
 
 end HvLat
